@@ -31,6 +31,10 @@ def build_driver(unit, extra_libs=()):
     exe = os.path.join(BIN, '%s-%s' % (unit, key))
     if os.path.exists(exe):
         return exe, ''
+    if 'lib/' not in open(src).read().split('#include "driver_common.h"')[0].replace('#include "llbuild/', ''):
+        # the driver links the code under test from the repo's libraries: refresh them from the working tree first
+        subprocess.run(['ninja', '-C', os.path.join(REPO, '_build'), 'llbuildBuildSystem', 'llbuildCore', 'llbuildBasic', 'llvmSupport'],
+                       stdout=subprocess.PIPE, stderr=subprocess.PIPE)
     libs = [os.path.join(REPO, '_build', l) for l in LIBS if os.path.exists(os.path.join(REPO, '_build', l))]
     cmd = ['clang++-14', '-std=c++14', '-g', '-O1', '-fno-rtti', '-fno-exceptions', '-DNDEBUG', '-fsanitize=address,undefined',
            '-fno-sanitize-recover=undefined', '-Wno-everything',
